@@ -10,6 +10,7 @@ import (
 
 	"github.com/logrusorgru/aurora"
 
+	"github.com/taskctl/taskctl/pkg/output"
 	"github.com/taskctl/taskctl/pkg/runner"
 	"github.com/taskctl/taskctl/pkg/scheduler"
 	"github.com/taskctl/taskctl/pkg/task"
@@ -48,6 +49,9 @@ func newRunCommand() *cli.Command {
 				return fmt.Errorf("no target specified")
 			}
 
+			// contexts are shut down once, after the last target, whether it succeeded or not
+			defer taskRunner.Finish()
+
 			for _, v := range c.Args().Slice() {
 				if v == "--" {
 					break
@@ -70,6 +74,8 @@ func newRunCommand() *cli.Command {
 				ArgsUsage: "task (TASK1) [TASK2]... [flags] [-- TASK_ARGS]",
 				Usage:     "run specified task(s)",
 				Action: func(c *cli.Context) error {
+					defer taskRunner.Finish()
+
 					for _, v := range c.Args().Slice() {
 						if v == "--" {
 							break
@@ -127,7 +133,7 @@ func runPipeline(g *scheduler.ExecutionGraph, taskRunner *runner.TaskRunner, sum
 	if err != nil {
 		return err
 	}
-	sd.Finish()
+	output.Close()
 
 	fmt.Fprint(os.Stdout, "\r\n")
 
@@ -144,7 +150,7 @@ func runTask(t *task.Task, taskRunner *runner.TaskRunner) error {
 		return err
 	}
 
-	taskRunner.Finish()
+	output.Close()
 
 	return nil
 }
